@@ -706,3 +706,39 @@ def rule_m14(ctx, rule_id: str = "C09-M14") -> None:
         ctx.instance(rule_id, "concat: %s (from the parts' SMILES: %s, de-duplicated: %s)" % (unparse(c)[:70], smi, bad is not None), f.loc(c), ok=bad is None)
         if bad is not None:
             ctx.finding(rule_id, "Compound.concat:parts-as-set", f.loc(c), "the SMILES of the parts are collected in a set (%s) before they are joined and parsed: two equal compounds (two identical leaving groups of one reaction) become one and the merged result loses their heavy atoms" % unparse(bad)[:60])
+    rule_m15(ctx)
+
+
+def rule_m15(ctx, rule_id: str = "C09-M15") -> None:
+    """Two fragments of one molecule can be the same compound (a cut about which the molecule is symmetric: ethane,
+    a disulfide, biphenyl).  On the merge path compounds are kept in lists; a dict or set *keyed by their SMILES* holds
+    one of two equal fragments, the other vanishes and the merged product has half the atoms."""
+    ctx.rule(rule_id, "on the merge path compounds are not collected in a dict / set keyed by their SMILES", 1)
+    prog = ctx.prog
+    scope = sorted(q for q in ctx.res.reachable([MERGE], ctx.graph) if q.startswith("synrbl.SynMCSImputer."))
+    n = 0
+    for q in scope:
+        f = prog.functions.get(q)
+        if f is None:
+            continue
+        n += 1
+        for x in own_nodes(f.node):
+            key = None
+            if isinstance(x, ast.DictComp):
+                key = x.key
+            elif isinstance(x, ast.SetComp):
+                key = x.elt
+            elif isinstance(x, ast.Call) and isinstance(x.func, ast.Name) and x.func.id in ("dict", "set", "frozenset") and x.args and isinstance(x.args[0], (ast.GeneratorExp, ast.ListComp)):
+                e = x.args[0].elt
+                key = e.elts[0] if isinstance(e, ast.Tuple) and e.elts else e
+            elif isinstance(x, ast.Assign) and len(x.targets) == 1 and isinstance(x.targets[0], ast.Subscript) and isinstance(getattr(x, "_parent", None), ast.For):
+                key = x.targets[0].slice
+            if key is None:
+                continue
+            by_smiles = any(isinstance(y, ast.Attribute) and y.attr in ("smiles", "src_smiles") for y in ast.walk(key)) or any(isinstance(y, ast.Call) and unparse(y.func).split(".")[-1] in ("MolToSmiles", "CanonSmiles") for y in ast.walk(key))
+            if not by_smiles:
+                continue
+            ctx.instance(rule_id, "%s: %s" % (q.split("synrbl.", 1)[-1], unparse(x)[:60]), f.loc(x), ok=False)
+            ctx.finding(rule_id, "%s:compounds-keyed-by-smiles" % q.split("synrbl.", 1)[-1], f.loc(x), "%s collects compounds under their SMILES (%s): two equal fragments - the halves of a molecule cut at its symmetric bond - become one entry, the second fragment is dropped and the merged product loses its atoms" % (f.name, unparse(x)[:60]))
+    ctx.instance(rule_id, "%d function(s) of the merge path inspected" % n, "", ok=True)
+    ctx.require(n >= 5, "merge path collapsed (%d functions)" % n)
